@@ -205,9 +205,18 @@ class Facts:
         self.cfg = cfg
         self.dir = extract(cfg)
         self.crates = {}
+        import canon
+        self.renames = {}
         for f in sorted(glob.glob(os.path.join(self.dir, "*.json"))):
             with open(f) as fh:
-                d = json.load(fh)
+                text = fh.read()
+            d = json.loads(text)
+            # items that moved between modules are given back their frozen names (rules/canon.py)
+            fkey = "all" if any("translation" in x for x in d.get("features", [])) else "def"
+            ren = canon.compute_renames(d.get("names", []), (canon.frozen().get(d["crate"]) or {}).get(fkey)) if not os.environ.get("BSQ_NO_CANON") else {}
+            if ren:
+                d = json.loads(canon.rewrite(text, ren))
+                self.renames.update({d["crate"] + "::" + k: v for k, v in ren.items()})
             kind = os.path.basename(f).split(".")[1]
             # the proc-macro crate may be compiled twice (host/target); keep one
             self.crates[d["crate"]] = Crate(d)
